@@ -605,8 +605,26 @@ tx_outs:\n{tx_outs}
         """Returns whether the input has a valid signature"""
         # get the relevant input
         tx_in = self.tx_ins[input_index]
+        script_pubkey = tx_in.script_pubkey(self.network)
+        script_sig = tx_in.script_sig
+        if script_pubkey.is_p2wpkh() or script_pubkey.is_p2wsh() or script_pubkey.is_p2tr():
+            # BIP141/BIP341: a native witness program requires an empty ScriptSig
+            if len(script_sig.commands) > 0:
+                return False
+        elif script_pubkey.is_p2sh():
+            # BIP16: the ScriptSig of a p2sh spend must be push only
+            for command in script_sig.commands:
+                if isinstance(command, int) and command > 0x60:
+                    return False
+            # BIP141: for a p2sh-wrapped witness program the ScriptSig must be
+            # exactly the push of the RedeemScript
+            if script_sig.commands and isinstance(script_sig.commands[-1], bytes):
+                redeem_script = RedeemScript.convert(script_sig.commands[-1])
+                if redeem_script.is_p2wpkh() or redeem_script.is_p2wsh():
+                    if len(script_sig.commands) != 1:
+                        return False
         # combine the scripts
-        combined_script = tx_in.script_sig + tx_in.script_pubkey(self.network)
+        combined_script = script_sig + script_pubkey
         # evaluate the combined script
         return combined_script.evaluate(self, input_index)
 
